@@ -19,7 +19,7 @@ CHECKS = {
 SVM = "Trusted base: svm-lite (native loader/CPI/sysvar emulation, DESIGN §2.1) and the shims; the token programs are the real SPL processors. Bounded: alphabets, roots and the completed depth are listed in the evidence file; a capped depth is reported as such."
 CHECKS.update({
  "C01": (A, "model_checking",
-   "explicit-state search: all op sequences up to a depth bound on the real program; invariant on every state; drains in all orders; swap-only histories in ledger mode; the alphabet includes requests the program must refuse (inverted ranges, 2^128-x withdrawal amounts, neighbouring tick arrays) whose acceptance would open states the invariant then judges",
+   "explicit-state search: all op sequences up to a depth bound on the real program; invariant on every state; drains in all orders; swap-only histories in ledger mode; the alphabet includes requests the program must refuse (inverted ranges, 2^128-x withdrawal amounts, neighbouring tick arrays) whose acceptance would open states the invariant then judges; fixed must-succeed histories on pools created with an arbitrary legacy bump argument and on an adaptive-fee pool (deposit, trade, both decrease instructions, reposition, collect)",
    "Every reachable state of every increase/decrease/swap/update/collect sequence up to the completed depth (5 roots, 2-4 worlds, fixed+dynamic arrays) satisfies vault >= protocol fees + position fees (after a real update) + exact withdrawable amounts; closing out all positions and protocol fees succeeds in every order with real token transfers; no swap-only history leaves the trader ahead.",
    SVM, "DESIGN.md §3 C01"),
  "C03": (A, "model_checking",
@@ -27,11 +27,11 @@ CHECKS.update({
    "Every swap transition from every state reached within the depth bound honours amount, direction, bound and limit; partial fills end exactly on the limit; exact-out without limit never partially fills; success/failure flips exactly at the realised threshold.",
    SVM, "DESIGN.md §3 C03"),
  "C05": (A, "model_checking",
-   "explicit-state search; state invariant with independent decoders of pool, positions, fixed and dynamic tick arrays; must-refuse requests (wrong tick array for a bound, re-initialisation of an existing array) are part of the alphabet",
+   "explicit-state search; state invariant with independent decoders of pool, positions, fixed and dynamic tick arrays; must-refuse requests (wrong tick array for a bound, re-initialisation of an existing array) are part of the alphabet, as are tick arrays at unaligned starts (multiples of the spacing, of lcm(88, spacing), at the left edge of the tick range), deposits naming them, and empty / inverted reposition targets",
    "In every reachable state within the depth bound pool.liquidity equals the sum over covering positions and every tick's net/gross/initialized equal the sums over bounding positions, in both encodings, incl. shared bounds, full range, landing on ticks, reaching price bounds.",
    SVM, "DESIGN.md §3 C05"),
  "C06": (A, "model_checking",
-   "explicit-state search; per-swap-step oracle from the H2 trace (rate and in-range liquidity re-derived from the pool and the positions) + totals from real balances/accounts + emitted event + conservation of what the positions can newly claim (real updates on pre/post copies)",
+   "explicit-state search; per-swap-step oracle from the H2 trace (rate and in-range liquidity re-derived from the pool and the positions) + totals from real balances/accounts + emitted event + conservation of what the positions can newly claim (real updates on pre/post copies); enumerated exact-out swaps whose total input lies within 8 units of 2^64 (must all be refused)",
    "Every swap transition within the depth bound splits exactly as stated (per-step fee, protocol cut, growth; trader debit/credit; Traded event); every collect_protocol_fees pays exactly what is owed and resets it; fee / protocol rates varied inside the search.",
    SVM + " Hook H2 is trusted to record the values the swap loop used.", "DESIGN.md §3 C06"),
  "C08": (A, "model_checking",
@@ -39,7 +39,7 @@ CHECKS.update({
    "Function-level: deposit=ceil, withdrawal=floor of the exact amounts, one-sidedness, add-then-remove loss <= 1, estimate is the largest fitting liquidity, Anchor==Pinocchio over boundary cross products and a complete small box. Handler-level: every liquidity transition within the depth bound moves exactly those amounts, reports them, and token_max/token_min flip exactly at the realised amounts; increase_liquidity_by_token_amounts_v2 adds the largest fitting liquidity.",
    SVM + " Prices and liquidities are alphabet points plus a complete small box (not all of u128).", "DESIGN.md §3 C08"),
  "C12": (A, "model_checking",
-   "instruction-level differential inside an explicit-state search (Pinocchio handler vs Anchor handler from the same pre-state: byte-identical post-ledger, events, errors) + function-level bounded-exhaustive differential + routing conformance against the real entrypoint symbol",
+   "instruction-level differential inside an explicit-state search (Pinocchio handler vs Anchor handler from the same pre-state: byte-identical post-ledger, events, errors) + function-level bounded-exhaustive differential + routing conformance against the real entrypoint symbol; failing and edge variants in every state incl. eleven remaining-accounts slice packagings of the v2 instructions",
    "Every increase/decrease transition (v1/v2, fixed/dynamic arrays) of every sequence within the depth bound, plus failing variants in every state, gives byte-identical ledgers/events/error codes through both implementations; function-level agreement over complete products of stated alphabets; harness dispatch == entrypoint.rs for all 66 discriminators.",
    SVM + " The Anchor handlers are invoked through a replica of Anchor's generated dispatcher (the #[program] stubs are unreachable!()). State alphabets instead of all byte contents at function level.", "DESIGN.md §3 C12"),
  "C13": (A, "model_checking",
@@ -47,7 +47,7 @@ CHECKS.update({
    "Dynamic (Anchor + Pinocchio) and fixed (Anchor + Pinocchio) arrays driven with the same update sequences: canonical encoding, identical get_tick / next-initialized answers and errors after every op.",
    "Overlay casts for types without public constructors (same as the program's loaders); bytes beyond the used length unconstrained (not persisted on chain).", "DESIGN.md §3 C13"),
  "C16": (A, "model_checking",
-   "function level: bounded-exhaustive enumeration over fee bps x max-fee x amounts x epoch vs exact reference; handler level: explicit-state search over transfer-fee pools with the real Token-2022 processor, oracles from real balances + H2 trace + events",
+   "function level: bounded-exhaustive enumeration over fee bps x max-fee x amounts x epoch (the schedule entry not in force differs in rate and cap / only in the cap / only in the rate) vs exact reference; handler level: explicit-state search over transfer-fee pools with the real Token-2022 processor, oracles from real balances + H2 trace + events",
    "Function-level: excluded+fee==amount, included is the least pre-image or errors only when none exists, Anchor==Pinocchio, TLV parser == spl-token-2022. Handler-level: every swap / increase / decrease within the depth bound moves exactly the curve amounts into/out of the vault, charges the smallest fee-including amount, applies thresholds and caller bounds to what the user pays/receives, reports the amounts moved; solvency invariant holds.",
    SVM + " One fee schedule per mint at handler level (epoch selection is function-level).", "DESIGN.md §3 C16"),
  "C19": (A, "model_checking",
@@ -62,11 +62,11 @@ CHECKS.update({
    "For every op sequence up to the completed depth (swaps across/onto/short of bounds both ways, liquidity changes incl. shared and de-initialised bounds, updates, collects; accumulators at 0, mid-range and just below wrap-around; pool starting on a bound): collected+owed of every position is at most its exact pro-rata entitlement and short of it by less than L/2^64 per credited step + 1 per update.",
    SVM + " Hook H2 supplies per-step liquidity/fee and crossings; the active set is re-derived from position ranges and cross-checked against each step's liquidity.", "DESIGN.md §3 C07"),
  "C11": (A, "model_checking",
-   "explicit-state search in ledger mode with the harness clock: exact rational shadow ledgers of reward entitlements per position and reward index (upper bound driven by the harness clock alone, lower bound by the harness\'s own record of settling instructions); enabledness oracles for emission changes, collects and earlier timestamps",
+   "explicit-state search in ledger mode with the harness clock: exact rational shadow ledgers of reward entitlements per position and reward index (upper bound driven by the harness clock alone, lower bound by the harness\'s own record of settling instructions); enabledness oracles for emission changes, collects and earlier timestamps (incl. re-setting and lowering a rate in force after collects drained the vault, through both handlers)",
    "For every op sequence up to the completed depth (clock steps, swaps moving positions in/out of range, liquidity changes, updates, collects against a vault holding exactly one day of emissions, emission changes incl. refused ones, late reward initialisation): credited rewards are within the two-sided rounding bound of the exact share; nothing accrues at zero liquidity or for uninitialised rewards; earlier timestamps fail; collect pays min(owed, vault); emission changes settle at the old rate and need a day of emissions.",
    SVM, "DESIGN.md §3 C11"),
  "C15": (A, "fault_enumeration",
-   "complete substitution matrix: every account slot of every fund-moving instruction (plus update_fees_and_rewards and set_reward_emissions) x every same-typed foreign account (twin universe, sibling pool / position incl. never-funded ones / reward index / token program), executed on the real program",
+   "complete substitution matrix: every account slot of every fund-moving instruction (plus update_fees_and_rewards and set_reward_emissions) x every same-typed foreign account (twin universe, sibling pool / position incl. never-funded ones / reward index / token program), executed on the real program; every writable slot of every judged instruction handed over read-only (must fail or end in the same state)",
    "Every non-exempt substitution is rejected with the ledger unchanged (16 instructions, SPL and mixed Token-2022 variants, 4-6 root states); exemptions are listed with justification in the evidence.",
    SVM + " Only rejection by some layer is required (a constraint duplicated by the token program cannot be isolated by outcome).", "DESIGN.md §3 C15"),
 })
@@ -77,39 +77,39 @@ CHECKS.update({
    "All 50 privileged instructions (18 position-token, 32 stored-authority; Anchor- and Pinocchio-dispatched; SPL and Token-2022 flavours; fresh/funded/emptied/locked/bundled states): the instruction succeeds only if the holder, its exactly-one-token delegate or the stored authority signed; every other variant fails and leaves the ledger byte-identical.",
    SVM + " The 16 instructions classified as not privileged are listed with reasons in the evidence; an unclassified instruction fails the run.", "DESIGN.md §3 C04"),
  "C18": (A, "model_checking",
-   "explicit-state search against a reference lifecycle machine (enabledness + post-conditions on every transition, ledger == machine in every state) + exhaustive bundle indexes, range-validation and one-sided-bound tables",
+   "explicit-state search against a reference lifecycle machine (enabledness + post-conditions on every transition, ledger == machine in every state) + exhaustive bundle indexes, range-validation and one-sided-bound tables; one-token delegates approved before a lock, the NFT close instruction aimed at bundled positions, locked positions held in a plain (165-byte) Token-2022 account",
    "All sequences up to the completed depth of open (4 kinds, valid/invalid/sentinel ranges) / increase / decrease / swap-to-earn / update / collect / close / reset / lock / transfer-locked / reposition / bundle ops on ordinary, Token-2022 and bundled positions agree with the lifecycle machine; all 256 bundle indexes; range validation and one-sided bound resolution against brute force (Anchor and Pinocchio).",
    SVM + " Metaplex metadata CPI is a recording stub (DESIGN §7).", "DESIGN.md §3 C18"),
 })
 
 CHECKS.update({
  "C10": (A, "model_checking",
-   "exhaustive enumeration of initialized-tick layouts (all subsets up to a size bound of 15 boundary slots x 3 arrays) x start states x swap sizes x packagings, every swap executed on the real program; reference traversal from the H2 crossing record; packaging differential; swap histories against an abstract tick set; two-hop packagings (a leg\'s arrays as supplemental accounts)",
+   "exhaustive enumeration of initialized-tick layouts (all subsets up to a size bound of 15 boundary slots x 3 arrays) x start states x swap sizes x packagings, every swap executed on the real program; reference traversal from the H2 crossing record; packaging differential; swap histories against an abstract tick set; two-hop packagings (a leg\'s arrays as supplemental accounts); a world whose last usable tick is the first slot of the last array (tick spacing 5000)",
    "For every layout / start state (between ticks, on a tick, shifted) / direction / size in the enumerated space: the crossing record equals exactly the initialized ticks between start and end price, in order, once each; outcome identical across fixed/dynamic/uncreated arrays, account permutations, duplicates and supplemental arrays; arrays that do not reach far enough fail, foreign-pool arrays are rejected. 6 worlds incl. arrays at both tick bounds and a full-range-only pool.",
    SVM + " Hook H2 is trusted for the crossing record; candidate ticks sit on five slots per array; an internal wall cap may cut the largest layouts (then exhaustive=false is reported).", "DESIGN.md §3 C10"),
 })
 
 CHECKS.update({
  "C14": (A, "model_checking",
-   "explicit-state search over swap / clock sequences on adaptive-fee pools with a per-step oracle from the H2 trace against a reference schedule without the skip optimisation; control-factor-0 twin differential; function-level bounded-exhaustive enumeration of the fee state machine incl. every accumulator at which the uncapped rate crosses a multiple of 2^32; first swap in the life of a pool created away from tick group 0",
+   "explicit-state search over swap / clock sequences on adaptive-fee pools with a per-step oracle from the H2 trace against a reference schedule without the skip optimisation; control-factor-0 twin differential; function-level bounded-exhaustive enumeration of the fee state machine incl. every accumulator at which the uncapped rate crosses a multiple of 2^32; first swap in the life of a pool created away from tick group 0; re-tuning a pool before it opens; two-hop routes through a pool that has not opened yet (judged by C17\'s oracle)",
    "Every recorded step of every swap in every sequence within the depth bound charges the reference rate of every tick group it touches, within [static, 10%], accumulator <= max; stored reference / accumulator / major-swap timestamp follow the documented rules; control factor 0 == static-fee twin; trading refused before the enable time. Function level: 1728 validated constant sets x variable states x elapsed classes, loop walks incl. skipped, saturated and boundary endings.",
    SVM + " Hook H2 is trusted for per-step rate, bounded target and skip flag. Tick spacing 64 and 4 constant sets at instruction level; the wide constant/variable quantifier is carried by the function-level walks.", "DESIGN.md §3 C14"),
 })
 
 CHECKS.update({
  "C17": (A, "model_checking",
-   "explicit-state search over three pools sharing mints; in every state every two-hop variant (routes x modes x amounts x limits x v1/v2, malformed variants) is executed and compared with the two single swaps executed on a copy; thresholds realised-1/0/+1",
+   "explicit-state search over three pools sharing mints; in every state every two-hop variant (routes x modes x amounts x limits x v1/v2, malformed variants) is executed and compared with the two single swaps executed on a copy; thresholds realised-1/0/+1; every judged two-hop re-run with oracle one / two / both read-only (must fail or end in the same state)",
    "Every two-hop over every reachable pool-pair state within the depth bound leaves a ledger byte-identical to leg one followed by leg two (pools, tick arrays, oracles, vaults, trader accounts, events) and fails exactly when a leg fails alone, the intermediate amounts differ, the pools coincide or share no mint, or the threshold is violated; SPL, Token-2022 and transfer-fee-on-the-intermediate worlds; adaptive-fee pools on a route.",
    SVM + " Quick tier explores depth 1 from two roots; deeper prefixes in the thorough tier (wall-capped under load, reported).", "DESIGN.md §3 C17"),
  "C20": (A, "model_checking",
-   "differential inside an explicit-state search: in every state a 60-swap alphabet is executed on the real program and quoted by the Rust core SDK on facades decoded from the same bytes (static, adaptive-fee and transfer-fee pools); function-level enumeration: all ticks both ways, amount/price/fee helpers and liquidity quotes over boundary alphabets; ethnum shim self-check vs num-bigint",
+   "differential inside an explicit-state search: in every state a 60-swap alphabet is executed on the real program and quoted by the Rust core SDK on facades decoded from the same bytes (static, adaptive-fee and transfer-fee pools); function-level enumeration: all ticks both ways, amount/price/fee helpers and liquidity quotes over boundary alphabets; ethnum shim self-check vs num-bigint; liquidity quotes with a transfer fee on one / both mints against the program\'s own fee functions; roots drained to the protocol price bounds",
    "Whenever the program's swap succeeds the SDK returns identical in/out/fee; where it refuses, the SDK returns a number only for partial exact-out fills (running off the arrays never produced an SDK number); conversions equal on all 887273 ticks and boundary prices; helpers equal or SDK errors where the program rejects as overflowing; slippage bounds on the safe side. Two recorded findings (quote before trade-enable time; exact-in token_in over a transfer-fee mint) are listed in known_findings.json; two defects were repaired (fix: commits).",
    SVM + " rust-sdk/core is built against a U256 shim (ethnum is not available offline) that is itself checked exhaustively against num-bigint on a value alphabet before use. TypeScript/WASM target not run (same Rust source).", "DESIGN.md §3 C20"),
 })
 
 CHECKS.update({
  "C02": (B, "exploration",
-   "bounded-exhaustive enumeration: full cross product of boundary alphabets (prices x liquidity x instance-derived amounts x fee rates x modes), complete small boxes (tick box and three one-unit-per-price-unit boxes), U256Muldiv over all operand pairs of a word alphabet; exact rational oracle (num-bigint)",
+   "bounded-exhaustive enumeration: full cross product of boundary alphabets (prices x liquidity x instance-derived amounts x fee rates x modes), complete small boxes (tick box and three one-unit-per-price-unit boxes), U256Muldiv over all operand pairs of a word alphabet; exact rational oracle (num-bigint); near-integer liquidities of tick-price pairs (continued-fraction convergents: exact amount within 2^-32 of an integer, from below and above) and liquidities at the u64 boundary of the amount",
    "On every successful step of the enumerated sets: price moves toward and not past the target; input = exact amount rounded up, output = exact amount rounded down (or the smaller request); the step is tight to within one price unit and consumes the whole budget / delivers the whole request when it stops short; U256 division q*d+r==n for every non-zero divisor (a panic there is a violation).",
    "Finite alphabets and boxes, not all of u64 x u128 x price^2 (exhaustive=false); compute_swap and the token-math functions are called directly.", "DESIGN.md §3 C02"),
 })
